@@ -178,7 +178,7 @@ func checkC06(c *Ctx) {
 	spaces := []space{{"arr", "{0, 1, 7, 8, 9, 10}", 8, c.Pick(3, 4)}, {"map", "{0, 1, 3, 4, 5, 6}", 4, c.Pick(3, 4)}}
 	seen := map[string]bool{}
 	for _, sp := range spaces {
-		r, err := c.TLC(TLCOpt{Spec: "Containers", Cfg: contCfg(sp.sizes, sp.small, sp.maxOps, true, true, true), Workers: 8, Heap: "8g"})
+		r, err := c.TLC(TLCOpt{Spec: "Containers", Cfg: contCfg(sp.sizes, sp.small, sp.maxOps, true, true, true), Workers: 1, Heap: "8g"}) // one worker: records/functions in the history are shared between states and TLC normalises them lazily (not thread safe)
 		if err != nil {
 			c.Infra(err)
 			return
